@@ -175,15 +175,18 @@ static void oneRun(unsigned seed, int combo, FILE* out) {
 	                  "<state id=\"p1\"><invoke type=\"scxml\" id=\"K\"" + std::string(autofwd ? " autoforward=\"true\"" : "") + "><content>" + childDoc(kind) + "</content>" +
 	                  (finalize ? "<finalize><log label=\"fin\"/></finalize>" : "") + "</invoke>"
 	                  "<transition event=\"leave\" target=\"p2\"/>"
+	                  "<transition event=\"bounce.now\" target=\"p2\"/>"
 	                  "<transition event=\"done.invoke.K\" target=\"p3\"><log label=\"done\"/></transition>"
 	                  "<transition event=\"fwd\"><send target=\"#_K\" event=\"go\"/></transition>"
 	                  "<transition event=\"c\"><log label=\"fromchild\"/></transition></state>"
-	                  "<state id=\"p2\"><transition event=\"back\" target=\"p1\"/></state>"
+	                  // "rebounce": p1 is entered and left again by an internal event within ONE macrostep: no invocation
+	                  "<state id=\"p2\"><transition event=\"back\" target=\"p1\"/>"
+	                  "<transition event=\"rebounce\" target=\"p1\"><raise event=\"bounce.now\"/></transition></state>"
 	                  "<state id=\"p3\"/></scxml>";
-	static const char* EVS[] = {"fwd", "fwd", "leave", "back", "ping", "fwd"};
-	int len = rnd(s) % 7;
+	static const char* EVS[] = {"fwd", "fwd", "leave", "back", "ping", "fwd", "rebounce", "leave"};
+	int len = rnd(s) % 8;
 	std::vector<std::string> script;
-	for (int i = 0; i < len; i++) script.push_back(EVS[rnd(s) % 6]);
+	for (int i = 0; i < len; i++) script.push_back(EVS[rnd(s) % 8]);
 
 	Interpreter interp = Interpreter::fromXML(doc, "file:///verif/mti.scxml");
 	Mon mon;
